@@ -28,6 +28,14 @@ func TestC04Dual(t *testing.T) {
 	vtx.Explore(t, prof.IsolationDual("c04-dual", nil), r)
 }
 
+// TestC04Multihomed: the server address is part of the 5-tuple: one client address connected to two addresses of
+// a listener bound to 0.0.0.0 holds two independent allocations.
+func TestC04Multihomed(t *testing.T) {
+	r := rep.New("C04")
+	defer r.Write()
+	vtx.Explore(t, prof.IsolationMultihomed("c04-multihomed", nil), r)
+}
+
 func TestC04TCP(t *testing.T) {
 	r := rep.New("C04")
 	defer r.Write()
